@@ -486,7 +486,7 @@ struct Range {
 
 impl Range {
     /// Limits are used when both of them are given, whatever kind of number each of them is.
-    /// Scaled integer limits are raw values of a scaled integer record.
+    /// Scaled integer limits are raw values in the units of the record.
     fn from_limits(
         min: &Option<RecordValue>,
         max: &Option<RecordValue>,
@@ -501,7 +501,8 @@ impl Range {
                     RecordValue::ScaledInteger(v),
                     Some(RecordDataType::ScaledInteger { scale, offset, .. }),
                 ) => Some(*v as f64 * *scale + *offset),
-                (RecordValue::ScaledInteger(_), _) => None,
+                // Records that are no scaled integers have the scale one and the offset zero
+                (RecordValue::ScaledInteger(v), _) => Some(*v as f64),
             }
         };
         let (Some(min), Some(max)) = (min, max) else {
